@@ -21,6 +21,8 @@ EXPLANATION = (
     "eviction loop that re-tests cache.len() >= max_entries after each pop_front, and the queue is compacted under a bound on "
     "its own length."
 )
+EXPLANATION_ADD = ' Additions: (GS-best-valid) as in C05; (UB-backoff) the backoff delay is clamped by maximum_delay_secs as the last step; the cache-bound rule covers every growth method of the cached vector; the refetch lower clamp is based on the time of this lookup, not a stored instant.'
+EXPLANATION = EXPLANATION + EXPLANATION_ADD
 RESIDUAL = ["liveness (never left without a path while one is known)", "numeric backoff ceiling",
             "issue-memory bound as a value over histories (decided only through the structural conditions IM1-IM4)"]
 ASSUMPTIONS = ["ScionPath::is_expired compares the path's expiry with the timestamp it is given"]
